@@ -931,6 +931,7 @@ type c16Session struct {
 	hist    []string
 	changes int
 	fails   int
+	maxN    int
 }
 
 func (s *c16Session) close() {
@@ -965,6 +966,8 @@ func (s *c16Session) line(op string) {
 		s.book = c16NewBook()
 		s.hist = []string{"reset"}
 		s.changes = 0
+		s.fails = 0
+		s.maxN = 1
 		d := c16ParseDump(xl.VerifC16Dump(s.f))
 		o, dn := c16Observe(s.f, &d)
 		r.Op(op, "ok | "+d.raw+" | "+o+" | "+dn)
@@ -1001,6 +1004,14 @@ func (s *c16Session) line(op string) {
 	if s.book.obs() != before {
 		s.changes++
 	}
+	if len(s.book.ents) > s.maxN {
+		s.maxN = len(s.book.ents)
+	}
+	if s.fails > 0 {
+		// the history already failed: the list model has diverged, later failures would only be echoes
+		r.Stat("op-after-failure")
+		return
+	}
 	if res != want {
 		s.fails++
 		r.Fail("result:"+w[0], fmt.Sprintf("%s returned %s, the list model expects %s", op, res, want), ln, replay)
@@ -1023,7 +1034,7 @@ func (s *c16Session) line(op string) {
 }
 
 func (s *c16Session) reopen() {
-	if s.f == nil {
+	if s.f == nil || s.fails > 0 {
 		return
 	}
 	s.line("save")
@@ -1037,7 +1048,7 @@ func (s *c16Session) reopen() {
 }
 
 func runC16(r *Run, rng *Rng, replay string) {
-	r.Rule = "a history counts as non-trivial when at least 3 of its calls changed the observable sheet list (order, names, visibility, content, selection or active index); distinct = distinct op sequences"
+	r.Rule = "cases = call histories on a fresh workbook + single checkSheetName probes; a history is non-trivial when at least 3 of its calls changed the observable sheet list (order, names, visibility, A1 content, selection or active index), a probe always; distinct = distinct op sequences / distinct probed strings"
 	s := &c16Session{r: r}
 	defer s.close()
 	if replay != "" {
@@ -1116,7 +1127,8 @@ func runC16(r *Run, rng *Rng, replay string) {
 			}
 		}
 		s.reopen()
-		r.Stat(fmt.Sprintf("history:sheets=%d", len(s.book.ents)))
+		r.Stat(fmt.Sprintf("history:final-sheets=%d", len(s.book.ents)))
+		r.Stat(fmt.Sprintf("history:max-sheets=%d", s.maxN))
 		r.Case(strings.Join(s.hist, "|"), s.changes >= 3)
 		if h < 3 {
 			r.Sample(strings.Join(s.hist, " ; "))
